@@ -239,6 +239,7 @@ def execute(spec):
         # per block: probability of every length
         P = []
         rep_u = []
+        support = []  # per block: the lengths quantiles 1e-9 and 1 - 1e-9 produce
         try:
             for b in range(nb):
                 def n_of(u, b=b):
@@ -250,6 +251,7 @@ def execute(spec):
                 hi_n = n_of(1 - 1e-9)
                 if lo_n is None or hi_n is None:
                     raise Failed("block size not observable")
+                support.append((lo_n, hi_n))
                 hi_n = min(hi_n, lo_n + 5)
                 bounds = [0.0]
                 for k in range(lo_n, hi_n):
@@ -357,6 +359,39 @@ def execute(spec):
                         viol("outside_molecule_positive", f"{bad!r} is not in the ensemble of {text!r} but gets probability {pb!r}")
                 except Exception:
                     pass
+            # chains the generator (practically) never produces: a block shorter than the 1e-9 quantile gives or longer than
+            # the 1 - 1e-9 quantile gives has generation probability below 1e-9, so the reported value must be that small too
+            variant = [t for t in spec.get("tags", []) if t.startswith("variant:")]
+            if not viols and variant and variant[0] in ("variant:clean", "variant:connector") and len(support) == nb:
+                modal = [max((k for k in P[b] if P[b][k] is not None), key=lambda k: P[b][k], default=None) for b in range(nb)]
+                if all(m is not None for m in modal):
+                    for b in range(nb):
+                        lo_b, hi_b = support[b]
+                        for n_out in ([lo_b - 1] if lo_b - 1 >= 1 else []) + [hi_b + 1, hi_b + 3]:
+                            ks = list(modal)
+                            ks[b] = n_out
+                            targets = [(k - 0.5) * ast.elements[stoch_idx[j]].repeats[0].mass for j, k in enumerate(ks)]
+                            o = genrun.run_molecule(text, {"seed": spec["seed"], "choice_policy": "first", "draw_policy": "natural", "budget": 6000},
+                                                    props=("C07",), embed="stub", ast=ast, forced_draws=targets, wall=60, reuse_obj=parsed.get("obj"))
+                            stats["generations"] += 1
+                            if o.harness_error or o.exc is not None or o.result is None:
+                                continue
+                            got = {r["ei"]: len(r["added"]) for r in getattr(o.audit, "stop_records", [])}
+                            if [got.get(ei) for ei in stoch_idx] != ks:
+                                continue
+                            try:
+                                p_out = float(g.mol_prob.get_ensemble_prob(o.smiles, parsed.get("obj"))[0])
+                            except Exception:
+                                continue
+                            stats["queries"] += 1
+                            stats["outside_lengths_queried"] = stats.get("outside_lengths_queried", 0) + 1
+                            if not (p_out <= 1e-7):
+                                viol("outside_molecule_positive",
+                                     f"block {b} with {n_out} units (quantiles 1e-9 .. 1-1e-9 of its law give {lo_b} .. {hi_b} units): generation probability is "
+                                     f"below 1e-9, get_ensemble_prob({o.smiles!r}) = {p_out!r}")
+                                break
+                        if viols:
+                            break
     except WallTimeout:
         return {"harness_error": "wall-clock watchdog fired", "violations": []}
     finally:
